@@ -18,6 +18,8 @@
 (*   apply   new record made of the function's outputs                     *)
 (*   assign  the input record plus exactly the output keys                 *)
 (*   filter  keeps the record iff the function's single output is truthy   *)
+(*           (a filter function returns one value; tuple-valued predicates  *)
+(*           are outside the universe)                                      *)
 (*   sink    write(selected inputs); the record is forwarded unchanged     *)
 (*   batch   (last operator) groups consecutive records                    *)
 (* The first error ends the stream; sinks are closed at the end.           *)
@@ -166,8 +168,9 @@ RECURSIVE OutKeys(_, _, _)
 OutKeys(prog, j, acc) ==
   IF j > Len(prog) THEN acc
   ELSE LET o == prog[j]
+           \* SKIP is a placeholder for an ignored output, not a key of the record
            mine == UNION {IF o.outs[m].t = "map" THEN {K(o.outs[m].names[n]) : n \in 1..Len(o.outs[m].names)} ELSE {o.outs[m].p}
-                          : m \in 1..Len(o.outs)} IN
+                          : m \in 1..Len(o.outs)} \ {SKIP} IN
        CASE o.op = "apply"  -> OutKeys(prog, j + 1, mine)
          [] o.op \in {"assign", "select"} -> OutKeys(prog, j + 1, acc \cup mine)
          [] o.op = "sink"   -> OutKeys(prog, j + 1, acc \cup {SELF})
@@ -191,7 +194,7 @@ Eval(prog, stream) ==
 
 \* ------------------------------------------------------------------ build-time rules (_check_assign_keys)
 AssignKeys(o) == UNION {IF o.outs[m].t = "map" THEN {K(o.outs[m].names[n]) : n \in 1..Len(o.outs[m].names)} ELSE {o.outs[m].p}
-                        : m \in 1..Len(o.outs)}
+                        : m \in 1..Len(o.outs)} \ {SKIP}
 RECURSIVE BuildErrFrom(_, _)
 BuildErrFrom(prog, j) ==
   IF j > Len(prog) THEN FALSE
@@ -220,11 +223,11 @@ Keys == {
   ApplyKw("sub", <<IP(A), IP(B)>>, <<"y", "x">>, <<OP(C)>>), Apply("sumab", <<IP(SELF)>>, <<OP(C)>>), Apply("const7", <<>>, <<OP(C)>>),
   Apply("sub", <<IP(A), IL(7)>>, <<OP(C)>>), Apply("mkdict", <<IP(A)>>, <<OM(<<"c">>, <<"q">>)>>), Apply("inc", <<IP(NX)>>, <<OP(NY)>>),
   Apply("mkdict", <<IP(A)>>, <<OP(SELF)>>),
-  Assign(<<OP(C)>>, "pair", <<IP(A)>>), Assign(<<OP(NY)>>, "inc", <<IP(NX)>>), Assign(<<OP(C), OP(SKIP)>>, "pair", <<IP(A)>>),
+  Assign(<<OP(D), OP(SKIP)>>, "pair", <<IP(B)>>), Assign(<<OP(C)>>, "pair", <<IP(A)>>), Assign(<<OP(NY)>>, "inc", <<IP(NX)>>), Assign(<<OP(C), OP(SKIP)>>, "pair", <<IP(A)>>),
   Assign(<<OM(<<"c", "d">>, <<"q", "p">>)>>, "mkdict", <<IP(A)>>), Assign(<<OP(C)>>, "sumab", <<IP(SELF)>>),
   Assign(<<OP(C)>>, "const7", <<>>), Assign(<<OP(MZ)>>, "inc", <<IP(A)>>), AssignKw(<<OP(C)>>, "sub", <<IP(A), IP(B)>>, <<"y", "x">>),
   Assign(<<OP(C), OP(D)>>, "inc", <<IP(A)>>), Assign(<<OP(C)>>, "sub", <<IP(A), IL(7)>>), Assign(<<OP(SELF)>>, "inc", <<IP(A)>>),
-  Filter("odd", <<IP(NX)>>), Filter("odd", <<IP(SELF)>>), Filter("pair", <<IP(A)>>), Op("filter", "odd", <<IP(A)>>, <<"x">>, <<>>, 0),
+  Filter("odd", <<IP(NX)>>), Filter("odd", <<IP(SELF)>>), Op("filter", "odd", <<IP(A)>>, <<"x">>, <<>>, 0),
   Sink(<<IP(A)>>), Sink(<<IP(NX), IL(7)>>), SinkKw(<<IP(A)>>, <<"x">>),
   Select(<<IP(C)>>, <<OP(C)>>), Assign(<<OP(D)>>, "inc", <<IP(C)>>), Filter("odd", <<IP(C)>>) }
 Fail == {
